@@ -415,6 +415,10 @@ def run(eng, R):
     if n_reads < 2:
         raise AnalysisError("E11: reads of flag / number keys in the readers not found (%d)" % n_reads)
 
+    # ---------------------------------------------------------------- E13: mappings whose order the reader turns into a list order are written in source order
+    R.rule("E13", "a mapping that the reader turns into a list (positional meaning) is written in the order of the object it describes: no sorting / set on the way", 1)
+    check_order_carrying(eng, R, "E13")
+
     # ---------------------------------------------------------------- E8
     src = common.src_of(fr.node)
     R.ob("E8", "FitYamlReader:param model", "_fit_object._param_model = _read_parametric_model" not in src or ("_on_error_change_callback = _fit_object._on_error_change" in src and "_fit_object._on_error_change()" in src),
@@ -428,3 +432,57 @@ def _classes(p):
     for m in p.modules.values():
         out.extend(m.classes.values())
     return out
+
+
+def check_order_carrying(eng, R, rule):
+    p = eng.p
+    n_ord = 0
+    for rcls in [c for c in _classes(p) if c.name.endswith("YamlReader")]:
+        rf = rcls.find_method("_convert_yaml_doc_to_object")
+        if rf is None or rf.cls is not rcls:
+            continue
+        popped = {}
+        for n in ast.walk(rf.node):
+            if isinstance(n, ast.Assign) and len(n.targets) == 1 and isinstance(n.targets[0], ast.Name) and isinstance(n.value, ast.Call) and isinstance(n.value.func, ast.Attribute) \
+                    and n.value.func.attr in ("pop", "get") and n.value.args and common.const_str(n.value.args[0]):
+                popped[n.targets[0].id] = common.const_str(n.value.args[0])
+        ordered = set()
+        for n in ast.walk(rf.node):
+            if isinstance(n, ast.ListComp):
+                for gen in n.generators:
+                    it = gen.iter
+                    base = it.func.value if isinstance(it, ast.Call) and isinstance(it.func, ast.Attribute) and it.func.attr in ("items", "keys", "values") else it
+                    if isinstance(base, ast.Name) and base.id in popped and isinstance(it, ast.Call):
+                        ordered.add(popped[base.id])
+        wcls = p.find_class(rcls.name.replace("Reader", "Writer")) if any(c.name == rcls.name.replace("Reader", "Writer") for c in _classes(p)) else None
+        if wcls is None:
+            continue
+        wf = wcls.find_method("_make_representation")
+        for key in sorted(ordered):
+            n_ord += 1
+            bad = []
+
+            def scan(expr, depth=0):
+                for c in ast.walk(expr):
+                    if isinstance(c, ast.Call):
+                        nm = common.call_name(c)
+                        if nm in ("sorted", "reversed", "set", "frozenset", "sort"):
+                            bad.append(nm)
+                        elif isinstance(c.func, ast.Attribute) and isinstance(c.func.value, ast.Name) and c.func.value.id in ("cls", "self", wcls.name) and depth < 2:
+                            m = wcls.find_method(c.func.attr)
+                            if m is not None:
+                                for st in ast.walk(m.node):
+                                    if isinstance(st, ast.Return) and st.value is not None:
+                                        scan(st.value, depth + 1)
+                    if isinstance(c, ast.Name) and depth < 3:
+                        for a in ast.walk(wf.node):
+                            if isinstance(a, ast.Assign) and isinstance(a.targets[0], ast.Name) and a.targets[0].id == c.id and a.value is not expr:
+                                scan(a.value, depth + 3)
+
+            for a in ast.walk(wf.node):
+                if isinstance(a, ast.Assign) and isinstance(a.targets[0], ast.Subscript) and common.const_str(a.targets[0].slice) == key:
+                    scan(a.value)
+            R.ob(rule, "%s:%s" % (wcls.name, key), not bad, (wf.file, wf.lineno),
+                 "'%s' is read back as a list in the order of the mapping, but the writer re-orders it (%s): values, uncertainties and the fixed marker are then shown under the wrong names" % (key, sorted(set(bad))))
+    if n_ord < 1:
+        raise AnalysisError("no order-carrying mapping found in the readers")
